@@ -1,26 +1,7 @@
-import Gengo.Model.TypeRef
+import Gengo.Model.Namer
 import Gengo.Props.C03b
 namespace Gengo.TypeRef
 open Gengo.Tracker
-
-mutual
-  /-- `rawNamer.processName`: walk the reference tree (node first, then its arguments left to
-      right) and replace every package path by what the file has to write for it -/
-  def rewrite (c : Cfg) (self : Str) : Tracker → TRef → TRef × Tracker
-    | t, .mk pkg name args =>
-      let r : Str × Tracker :=
-        if pkg.isEmpty then ([], t)
-        else if pkg = self then ([], t)
-        else (localNameOf (add c t pkg) pkg, add c t pkg)
-      let ra := rewriteList c self r.2 args
-      (.mk r.1 name ra.1, ra.2)
-  def rewriteList (c : Cfg) (self : Str) : Tracker → List TRef → List TRef × Tracker
-    | t, [] => ([], t)
-    | t, a :: as =>
-      let r1 := rewrite c self t a
-      let r2 := rewriteList c self r1.2 as
-      (r1.1 :: r2.1, r2.2)
-end
 
 mutual
   /-- the tree with every package path forgotten -/
